@@ -170,6 +170,30 @@ def run(ctx):
                             ru, ou = r.unit(), o.unit()
                             if not isinstance(ru, vector._methods.Vector) or not AH.close({k: float(getattr(ru, k)) for k in AH.vec_fields(ou)}, AH.leaf_value(ou)):
                                 ctx.fail(f"{site0}:record:unit", f"record.unit() = {ru!r} ({type(ru).__name__}), object {ou!r}", {"records": recs})
+                            # every unary operation and dimension change on the selected record: a vector record of the object's flavor,
+                            # dimension and values (select-then-operate = operate on the equivalent object)
+                            rec_ops = [(nm, f) for nm, (mind, f) in AH.UNARY.items() if mind <= dim] + \
+                                      [(m, (lambda v, m=m: getattr(v, m)())) for m in ("to_Vector2D", "to_Vector3D", "to_Vector4D", "to_xy", "to_rhophi", "to_xyz", "to_rhophieta", "to_xyzt", "to_rhophithetatau")]
+                            for nm, f in rec_ops:
+                                n += 1
+                                try:
+                                    oo = f(o)
+                                except Exception:
+                                    continue
+                                try:
+                                    rr = f(r)
+                                except Exception as e:
+                                    known_rec = isinstance(e, AssertionError) and nm in ("abs", "pow2")
+                                    ctx.fail("known:abs() and ** on an Awkward vector record" if known_rec else f"{site0}:record:{nm}",
+                                             f"raises {type(e).__name__}: {e} ({site0}:record:{nm})"[:200], {"records": recs})
+                                    continue
+                                if isinstance(oo, vector._methods.Vector):
+                                    okv = isinstance(rr, vector._methods.Vector) and isinstance(rr, vector._methods.Momentum) == isinstance(oo, vector._methods.Momentum) \
+                                        and AH.vec_fields(rr) == AH.vec_fields(oo) and AH.close({k: float(getattr(rr, k)) for k in AH.vec_fields(oo)}, AH.leaf_value(oo))
+                                    if not okv:
+                                        ctx.fail(f"{site0}:record:{nm}", f"record.{nm} = {rr!r} ({type(rr).__name__}), the equivalent object gives {oo!r}", {"records": recs})
+                                elif not AH.close(AH.leaf_value(rr), AH.leaf_value(oo)):
+                                    ctx.fail(f"{site0}:record:{nm}", f"record.{nm} = {rr!r}, the equivalent object gives {oo!r}", {"records": recs})
                         if len(samples) < 3 and kind == "option_record" and dim == 3:
                             samples.append({"layout": kind, "records": str(recs)[:200], "rotateZ": str(ak.to_list(A.rotateZ(0.7)))[:200]})
     ctx.coverage["evaluations"] = n
